@@ -57,6 +57,61 @@ def texts_in(tree):
     return out
 
 
+PRE_ATOMS = ["<nowiki>", "</nowiki>", "<nowiki/>", "<nowiki />", "<NoWiki >", "</NOWIKI\t>", "<nowiki\n/>", "<!--", "-->", "\n", "\n\n", " ",
+             "a", "b", "{{t}}", "[[l]]", "<", ">", "/", "-", "--", "<b>", "<!-", "<nowiki", "</nowiki", "''", "x<y"]
+
+
+def gen_pre_text(rng):
+    if rng.random() < 0.5:
+        parts = []
+        for _ in range(rng.randint(1, 6)):
+            k = rng.random()
+            inner = "".join(rng.choice(["a", " ", "\n", "{{t}}", "-", "''", "|", "="]) for _ in range(rng.randint(0, 4)))
+            if k < 0.35:
+                parts.append(inner)
+            elif k < 0.6:
+                parts.append(rng.choice(["", "\n", "\n\n", " "]) + "<!--" + inner + rng.choice(["", "<nowiki>", "-"]) + "-->")
+            elif k < 0.85:
+                parts.append("<nowiki>" + inner + rng.choice(["", "<!-- c -->", "<b>"]) + "</nowiki>")
+            else:
+                parts.append(rng.choice(["<nowiki/>", "<nowiki />", "<!--", "<nowiki>", "\n<!--"]))
+        return "".join(parts)
+    return "".join(rng.choice(PRE_ATOMS) for _ in range(rng.randint(1, 10)))
+
+
+def coq_pitem(it):
+    if isinstance(it, int):
+        return "PCh %s" % lib.cN(it)
+    if it[0] == "nw":
+        return "PNw %s" % lib.cstr(it[1])
+    return "PNwEmpty"
+
+
+def check_preprocess(run, rng, quick):
+    """Model/Preprocess.v against Wtp.preprocess_text on tag soups and arrangements"""
+    texts = [gen_pre_text(rng) for _ in range(1200 if quick else 30000)]
+    res = lib.run_impl("preprocess", [{"texts": texts[i:i + 400]} for i in range(0, len(texts), 400)], shards=lib.NCPU)
+    outs = []
+    for r in res:
+        if r.get("outcome") != "ok":
+            run.correspondence_break("preprocess_text could not be run", None, error=str(r)[:400])
+            return
+        outs += r["outs"]
+    cases = []
+    for t, o in zip(texts, outs):
+        run.count(["pre", t], "<" in t, "preprocess")
+        if any(isinstance(it, list) and it[0] == "cookie" for it in o):
+            run.correspondence_break("preprocess_text produced a non-nowiki cookie", {"text": t})
+            continue
+        cases.append("(%s, %s)" % (lib.cstr(t), lib.clist([coq_pitem(it) for it in o], lambda x: x, "pitem")))
+    bad, errs = lib.coq_eval_failing("c15p", ["Base.Str", "Model.Preprocess"], "str * list pitem", cases,
+                                     "fun '(t, o) => pitems_eqb (preprocess t) o", chunk=300)
+    for e in errs:
+        run.correspondence_break("model evaluation failed (preprocess)", None, error=e)
+    for b in bad:
+        run.correspondence_break("Model.Preprocess.preprocess disagrees with Wtp.preprocess_text", {"text": texts[b]}, impl=outs[b])
+
+
 def run(run):
     run.rule = ("(a) nowiki bodies c = 0-12 tokens from a 58-token wikitext alphabet (templates, links, tables, list markers, "
                 "headings, HTML, magic words, single markup characters; no '&', no closing tag) in 9 embedding contexts; "
@@ -67,7 +122,8 @@ def run(run):
         "Coq 8.16.1 kernel; the roundtrip/inertness theorems are proved for the _nowiki_map regenerated from common.py each run",
         "axioms: none",
         "translator translate/data.py (reads the live module)",
-        "preprocess_text/_encode/tokenizer are glue exercised by the oracle (expand and parse on every case), not modelled",
+        "model coq/Model/Preprocess.v tied to core.py:preprocess_text by comparing its item list on generated tag soups; _encode and "
+        "the tokenizer are glue exercised by the oracle (expand and parse on every case), not modelled",
         "html.unescape as the decoder on the implementation side; Model.Nowiki.unescape as the decoder in the theorem",
     ]
     errs = regen.regen(["GenData"])
@@ -75,6 +131,10 @@ def run(run):
         run.correspondence_break("translator %s failed" % k, None, error=v)
     run.prove()
     rng = run.rng
+    rc, out = lib.coq_make(["Model/Preprocess.vo"])
+    if rc != 0:
+        run.correspondence_break("Model/Preprocess.v does not build", None, error=out[-1500:])
+    check_preprocess(run, rng, run.tier == "quick")
     n = 500 if run.tier == "quick" else 12000
     # ---- (a) nowiki
     cases_a = []
